@@ -273,7 +273,7 @@ def run(pid, tier, seed, jobs=None, replay=None, quiet=False):
             path = write_replay(pid, sig, 0, v, seed, tier)
             lines.append(f'HARNESS-ERROR property={pid} sig={sig} replay={path}')
             lines.append(v['detail'])
-            exit_code = 2
+            exit_code = exit_code or 2
             continue
         # deterministic replay from a fresh accumulator
         R2 = Result()
@@ -285,7 +285,7 @@ def run(pid, tier, seed, jobs=None, replay=None, quiet=False):
             path = write_replay(pid, sig, 0, v, seed, tier)
             lines.append(f'HARNESS-ERROR property={pid} sig={sig} did not reproduce on replay '
                          f'(nondeterminism not owned) replay={path}')
-            exit_code = 2
+            exit_code = exit_code or 2
             continue
         if sig in open_sigs:
             lines.append(f"KNOWN-FINDING: property={pid} {open_sigs[sig]['what']} "
@@ -295,8 +295,7 @@ def run(pid, tier, seed, jobs=None, replay=None, quiet=False):
         path = write_replay(pid, sig, 0, v, seed, tier)
         lines.append(f'VIOLATION property={pid} replay={path}')
         lines.append(f"  signature={sig} cases={total.viol_count[sig]} detail={v['detail'][:600]}")
-        if exit_code == 0:
-            exit_code = 1
+        exit_code = 1          # a confirmed violation takes precedence over harness errors
 
     wall = time.time() - t0
     cov = {
